@@ -341,7 +341,61 @@ Definition parse_namespaced (i : nat) : outcome (res (namespaced * nat)) :=
       end
   end.
 
-(* fn parse_setting(&self, i) and its array loop *)
+(* fn parse_setting(&self, i) and its array loop.  The three non-recursive
+   arms of the function are written as separate definitions (same order of
+   operations as the Rust text). *)
+
+(* arm [Some(m)] of [RE_DIGITS.find(&self.src[i..])], mend = m.end() *)
+Definition setting_num (i mend : nat) : outcome (res (setting * nat)) :=
+  do num_span <- mk_span (i + 0) (i + mend);
+  do num_str <- slice_range src (fst num_span) (snd num_span);
+  match parse_u64 num_str with
+  | None =>
+      (* pinned code: .unwrap() of the ParseIntError *)
+      if fixed then Done (Err {| ekind := ConversionError; elocs := [num_span] |}) else Panic
+  | Some num =>
+      do i' <- parse_ws (snd num_span);
+      Done (Ok (Num num num_span, i'))
+  end.
+
+(* arm [Some(m)] of [RE_STRING.find(&self.src[i..])] *)
+Definition setting_str (i mend : nat) : outcome (res (setting * nat)) :=
+  let e := i + mend in
+  do e1 <- sub1 e;
+  do str_span <- mk_span (i + 0 + 1) e1;
+  do str <- slice_range src (fst str_span) (snd str_span);
+  do i' <- parse_ws e;
+  Done (Ok (Str str str_span, i')).
+
+(* the final [else] arm: a namespaced value, optionally with one argument *)
+Definition setting_path (i : nat) : outcome (res (setting * nat)) :=
+  do r <- parse_namespaced i;
+  match r with
+  | Err e => Done (Err e)
+  | Ok (path_val, j) =>
+      do i1 <- parse_ws j;
+      do la1 <- lookahead_is LPAREN i1;
+      match la1 with
+      | Some j1 =>
+          do r2 <- parse_namespaced j1;
+          match r2 with
+          | Err e => Done (Err e)
+          | Ok (arg, j2) =>
+              do i2 <- parse_ws j2;
+              do la2 <- lookahead_is RPAREN i2;
+              match la2 with
+              | Some j3 =>
+                  do i3 <- parse_ws j3;
+                  Done (Ok (Constructor path_val arg, i3))
+              | None =>
+                  do sp <- mk_span i2 i2;
+                  Done (Err {| ekind := ExpectedToken 41; elocs := [sp] |})
+              end
+          end
+      | None => Done (Ok (Unitary path_val, i1))
+      end
+  end.
+
 Fixpoint parse_setting (fuel : nat) (i0 : nat) {struct fuel} : outcome (res (setting * nat)) :=
   match fuel with
   | 0 => OutOfFuel
@@ -349,58 +403,16 @@ Fixpoint parse_setting (fuel : nat) (i0 : nat) {struct fuel} : outcome (res (set
     do i <- parse_ws i0;
     do rest <- slice_from src i;
     match re_digits rest with
-    | Some mend =>
-        do num_span <- mk_span (i + 0) (i + mend);
-        do num_str <- slice_range src (fst num_span) (snd num_span);
-        match parse_u64 num_str with
-        | None =>
-            (* .unwrap() of the ParseIntError *)
-            if fixed then Done (Err {| ekind := ConversionError; elocs := [num_span] |}) else Panic
-        | Some num =>
-            do i' <- parse_ws (snd num_span);
-            Done (Ok (Num num num_span, i'))
-        end
+    | Some mend => setting_num i mend
     | None =>
       do rest' <- slice_from src i;
       match re_string rest' with
-      | Some mend =>
-          let e := i + mend in
-          do e1 <- sub1 e;
-          do str_span <- mk_span (i + 0 + 1) e1;
-          do str <- slice_range src (fst str_span) (snd str_span);
-          do i' <- parse_ws e;
-          Done (Ok (Str str str_span, i'))
+      | Some mend => setting_str i mend
       | None =>
           do la <- lookahead_is LBRACK i;
           match la with
           | Some j => array_loop f i j j []
-          | None =>
-              do r <- parse_namespaced i;
-              match r with
-              | Err e => Done (Err e)
-              | Ok (path_val, j) =>
-                  do i1 <- parse_ws j;
-                  do la1 <- lookahead_is LPAREN i1;
-                  match la1 with
-                  | Some j1 =>
-                      do r2 <- parse_namespaced j1;
-                      match r2 with
-                      | Err e => Done (Err e)
-                      | Ok (arg, j2) =>
-                          do i2 <- parse_ws j2;
-                          do la2 <- lookahead_is RPAREN i2;
-                          match la2 with
-                          | Some j3 =>
-                              do i3 <- parse_ws j3;
-                              Done (Ok (Constructor path_val arg, i3))
-                          | None =>
-                              do sp <- mk_span i2 i2;
-                              Done (Err {| ekind := ExpectedToken 41; elocs := [sp] |})
-                          end
-                      end
-                  | None => Done (Ok (Unitary path_val, i1))
-                  end
-              end
+          | None => setting_path i
           end
       end
     end
@@ -425,17 +437,15 @@ with array_loop (fuel : nat) (i open_pos j0 : nat) (vals : list setting) {struct
             do la1 <- lookahead_is COMMA j1;
             array_loop f i open_pos (match la1 with Some k1 => k1 | None => j1 end) (vals ++ [val])
         | Err e =>
-            if fixed then
-              do la0 <- lookahead_is COMMA j;
-              match la0 with
-              | None => Done (Err e)
-              | Some _ =>
-                  do la1 <- lookahead_is COMMA j;
-                  array_loop f i open_pos (match la1 with Some k1 => k1 | None => j end) vals
-              end
-            else
-              do la1 <- lookahead_is COMMA j;
-              array_loop f i open_pos (match la1 with Some k1 => k1 | None => j end) vals
+            (* pinned code: the error is dropped ([if let Ok(..)]);
+               repaired code: it is returned unless a ',' follows *)
+            do la0 <- (if fixed then lookahead_is COMMA j else Done (Some j));
+            match la0 with
+            | None => Done (Err e)
+            | Some _ =>
+                do la1 <- lookahead_is COMMA j;
+                array_loop f i open_pos (match la1 with Some k1 => k1 | None => j end) vals
+            end
         end
     end
   end.
@@ -504,6 +514,27 @@ Fixpoint section_loop (fuel : nat) (i : nat) (ret : header) (errs : list herror)
     else Done (inr (i, ret, errs))
   end.
 
+(* the part of [parse] after the [while] loop *)
+Definition parse_finish (section_start_pos i2 : nat) (ret : header) (errs : list herror) : outcome hresult :=
+  do la2 <- lookahead_is STAR i2;
+  match la2 with
+  | Some j2 =>
+      do sp <- mk_span i2 j2;
+      Done (HErrs (errs ++ [{| ekind := UnexpectedToken 42; elocs := [sp] |}]))
+  | None =>
+      do la3 <- lookahead_is RBRACE i2;
+      match la3 with
+      | Some i3 =>
+          match errs with
+          | [] => Done (HOk ret i3)
+          | _ => Done (HErrs errs)
+          end
+      | None =>
+          do sp <- mk_span section_start_pos i2;
+          Done (HErrs (errs ++ [{| ekind := ExpectedToken 125; elocs := [sp] |}]))
+      end
+  end.
+
 (* pub fn parse(&self) *)
 Definition parse (required : bool) (fuel : nat) : outcome hresult :=
   do w0 <- parse_ws 0;
@@ -519,25 +550,7 @@ Definition parse (required : bool) (fuel : nat) : outcome hresult :=
           do st <- section_loop fuel i1 [] [];
           match st with
           | inl errs => Done (HErrs errs)
-          | inr (i2, ret, errs) =>
-              do la2 <- lookahead_is STAR i2;
-              match la2 with
-              | Some j2 =>
-                  do sp <- mk_span i2 j2;
-                  Done (HErrs (errs ++ [{| ekind := UnexpectedToken 42; elocs := [sp] |}]))
-              | None =>
-                  do la3 <- lookahead_is RBRACE i2;
-                  match la3 with
-                  | Some i3 =>
-                      match errs with
-                      | [] => Done (HOk ret i3)
-                      | _ => Done (HErrs errs)
-                      end
-                  | None =>
-                      do sp <- mk_span section_start_pos i2;
-                      Done (HErrs (errs ++ [{| ekind := ExpectedToken 125; elocs := [sp] |}]))
-                  end
-              end
+          | inr (i2, ret, errs) => parse_finish section_start_pos i2 ret errs
           end
       | None =>
           do sp <- mk_span i i;
